@@ -33,7 +33,7 @@ ASSUMPTIONS = [
     "wait=True is only combined with complete crops (it would wait forever)",
 ]
 
-SCNS = ["raw-bs2", "runner", "runner-df", "harv-jl-overlap",
+SCNS = ["raw-bs2", "raw-bool", "runner", "runner-df", "harv-jl-overlap",
         "harv-h5-disjoint", "harv-jl-none", "samp-pkl"]
 # failures whose corrected retry is also made through the very objects (Crop
 # and its farmer) that saw the failure - a long-lived session
@@ -239,7 +239,9 @@ def check_case(case):
             # check_bad exists for): noticed only after everything was read
             import pickle
 
-            p_ = os.path.join(d, rfs[-1])
+            # (in the last result file, or - bool results, whose very last
+            # value is False - in the first one)
+            p_ = os.path.join(d, rfs[0 if case["scn"] == "raw-bool" else -1])
             with open(p_, "rb") as fh:
                 good = pickle.load(fh)
             # (the surplus entry is a copy of the last one, or a falsy value)
